@@ -375,6 +375,8 @@ impl<const SELECT0_SUPPORT: bool> DArray<SELECT0_SUPPORT> {
 
         if block_pos < 0 {
             // block is sparse
+            #[cfg(qwt_verif)]
+            crate::verif::probe(12);
             let overflow_pos: usize = (-block_pos - 1) as usize;
             let idx = overflow_pos + (i & (BLOCK_SIZE - 1));
             return Some(inventories.overflow_positions[idx]);
@@ -412,6 +414,10 @@ impl<const SELECT0_SUPPORT: bool> DArray<SELECT0_SUPPORT> {
             }
             reminder -= popcnt;
             word_idx += 1;
+            #[cfg(qwt_verif)]
+            crate::verif::probe(13);
+            #[cfg(qwt_verif)]
+            crate::verif::sched_point();
             word = self.bv.get_word(word_idx);
             if !BIT {
                 word = !word; // if select0, negate the current word!
